@@ -229,6 +229,14 @@ func signature(j job, o outcome) string {
 	case o.Class == "panic":
 		return "panic:" + j.surface + ":" + topFrame(o.Detail)
 	case o.Class == "crash":
+		if i := strings.Index(o.Detail, "fatal error: "); i >= 0 {
+			// the Go runtime killed the process (not a panic: nothing can recover it)
+			line := o.Detail[i+len("fatal error: "):]
+			if k := strings.IndexByte(line, '\n'); k >= 0 {
+				line = line[:k]
+			}
+			return "fatal:" + j.surface + ":" + strings.ReplaceAll(strings.TrimSpace(line), " ", "-")
+		}
 		return "crash:" + j.surface + ":" + topFrame(o.Detail)
 	case o.Class == "hang":
 		if hugeRange(j.input, hugeBits(j.surface)) {
@@ -331,6 +339,9 @@ func genCase(r *rand.Rand, surface, cniPath string) job {
 		return job{surface: surface, input: b, tag: tag}
 	}
 	podCase := func() job {
+		if surface != "cnipod" && r.Intn(10) < 4 {
+			return job{surface: surface, input: total.PodJSON(total.GenValidPod(r)), tag: "typed-valid"}
+		}
 		if r.Intn(10) < 6 {
 			return job{surface: surface, input: total.PodJSON(total.GenPod(r)), tag: "typed"}
 		}
@@ -514,6 +525,7 @@ func run(e *hx.Env) *hx.Report {
 	}
 	lockset.Quiet()
 	corrPart(e, r)
+	lockTablePart(e, r)
 	names := []string{}
 	for _, s := range surfaces {
 		names = append(names, s.name)
@@ -631,6 +643,9 @@ func run(e *hx.Env) *hx.Report {
 				}
 				r.Hit(j.surface + ":" + cls)
 				r.Hit("tag:" + strings.SplitN(j.tag, "+", 2)[0])
+				if o.Fault != "" {
+					r.Hit("fault:" + j.surface + ":" + o.Fault + ":" + o.Class)
+				}
 				if o.Class == "error" && len(o.Detail) > 0 {
 					r.Hit("errclass:" + j.surface + ":" + errKind(o.Detail))
 				}
@@ -697,6 +712,28 @@ func run(e *hx.Env) *hx.Report {
 			Replay: e.WriteReplay("C18", "watchdog", sanitize(sg), hdr, []string{caseOp(f.j)})})
 	}
 	return r
+}
+
+// lockTablePart: the regenerated lock-balance table (Lean definitions, through gxdrv_lockset): an acquisition that is
+// not released exactly once on every path is a violation of "do not keep a lock held" by itself.
+func lockTablePart(e *hx.Env, r *hx.Report) {
+	out, err := e.RunDriver("lockset", []string{"unbalanced"})
+	if err != nil {
+		r.Disagree = append(r.Disagree, hx.Disagreement{Where: "lockset driver", Impl: "-", Model: err.Error(),
+			Replay: e.WriteReplay("C18", "locks", "driver", []string{err.Error()}, nil)})
+		return
+	}
+	r.Extra["unbalanced_locks"] = out[0]
+	if out[0] == "-" {
+		r.Hit("locktable:balanced")
+		return
+	}
+	for _, sig := range strings.Fields(out[0]) {
+		r.Hit("locktable:unbalanced")
+		r.Violations = append(r.Violations, hx.Violation{Signature: "lock-" + sig,
+			What:   "lock not released exactly once on every path of its function (leaked = some return leaves it held; unheld = released twice / without holding): " + sig,
+			Replay: e.WriteReplay("C18", "locks", sanitize(sig), []string{"gxdrv_lockset op `unbalanced` lists " + sig}, []string{"locktable"})})
+	}
 }
 
 func errKind(d string) string {
@@ -767,6 +804,10 @@ func replay(e *hx.Env, r *hx.Report) *hx.Report {
 	s := &slot{}
 	defer func() { s.p.kill() }()
 	for _, o := range ops {
+		if o == "locktable" {
+			lockTablePart(e, r)
+			continue
+		}
 		if strings.HasPrefix(o, "corr ") {
 			corrReplay(e, r, strings.TrimPrefix(o, "corr "))
 			continue
